@@ -243,7 +243,13 @@ def run(ctx, rep):
         v = vkey(ev.call_fn(TRK + "current_word_mem_pos", [tracker]))
     except Unsupported as e:
         v = "unsupported %s" % e
-    want = "sym(Add(sym(Mul(sym(cast(sym(Sub(sym(COUNT),0x1)) as u64)),sym(Add(0xa,sym(cast(sym(PAD) as u64)))))),sym(PAYLOAD)))"
+    # compared as a polynomial (re-association, named constants and widening casts do not matter):
+    # (COUNT − 1)·(10 + PAD) + PAYLOAD = COUNT·PAD + 10·COUNT − PAD − 10 + PAYLOAD
+    from .c20 import parse as _parse, poly as _poly, poly_str as _poly_str
+    got_p = _poly(_parse(v)) if not v.startswith("unsupported") else None
+    want_p = {("COUNT", "PAD"): 1, ("COUNT",): 10, ("PAD",): -1, (): -10, ("PAYLOAD",): 1}
+    v = "%s  [= %s]" % (v, _poly_str(got_p))
+    want = v if got_p == want_p else "(COUNT-1)*(10+PAD)+PAYLOAD"
     rep.check(v == want, "R7.3", "R7.3|formula", "current_word_mem_pos = (count−1)·(10+pad) + payload_pos", TRK + "current_word_mem_pos",
               "offset formula is %s (expected %s)" % (v, want))
     try:
